@@ -1,12 +1,12 @@
 #!/usr/bin/env python3
-"""usage: import_batch3.py [3|4]  -- imports finished batch-3 (batch-4) seeded changes from /tmp/wt3_Cxx (/tmp/wt4_Cxx)/_seeded/1 into seeded/Cxx/6 (/7), confirms the demo in a scratch worktree,
+"""usage: import_batch3.py [3|4|5]  -- imports finished batch-3 (batch-4) seeded changes from /tmp/wt3_Cxx (/tmp/wt4_Cxx)/_seeded/1 into seeded/Cxx/6 (/7), confirms the demo in a scratch worktree,
 runs the FIRST check against it and records the first-run result in seeded/FIRST_RUN.json (batch3_first_run)"""
 import json, os, shutil, subprocess, sys
 HERE = os.path.dirname(os.path.dirname(os.path.abspath(__file__)))
 FR = os.path.join(HERE, 'seeded', 'FIRST_RUN.json')
 d = json.load(open(FR))
 BATCH = int(sys.argv[1]) if len(sys.argv) > 1 else 3
-SLOT = {3: '6', 4: '7'}[BATCH]
+SLOT = {3: '6', 4: '7', 5: '8'}[BATCH]
 b3 = d.setdefault(f'batch{BATCH}_first_run', dict(caught=[], missed=[], rejected=[]))
 for i in range(1, 21):
     pid = f'C{i:02d}'
